@@ -75,3 +75,28 @@ class RecordingPath:
 class StubEx:
     def __init__(self):
         self.path = RecordingPath()
+
+
+def replay_script(name, what):
+    """native replay by a standalone script under contracts/replays/ (exit 0 = property holds on the real code,
+    exit 1 = the script's scenario breaks it; anything else = could not run)"""
+    import os
+    import subprocess
+    import sys
+
+    path = os.path.join(os.path.dirname(os.path.abspath(__file__)), "replays", name)
+
+    def replay(r):
+        env = dict(os.environ, PYTHONPATH=loader.REPO_SRC)
+        try:
+            p = subprocess.run([sys.executable, path], capture_output=True, text=True, timeout=600, env=env, cwd=os.path.dirname(path))
+        except Exception as e:  # noqa
+            return {"reproduced": None, "detail": f"replay script {name} could not run: {type(e).__name__}: {e}"}
+        tail = " | ".join(l.strip() for l in (p.stdout or "").strip().splitlines()[-6:])[:700]
+        if p.returncode == 1:
+            return {"reproduced": True, "detail": f"{what}: {tail}", "inputs": f"contracts/replays/{name}"}
+        if p.returncode == 0:
+            return {"reproduced": False, "detail": f"{what}: the scenario of contracts/replays/{name} behaves correctly on the real code"}
+        return {"reproduced": None, "detail": f"replay script {name} exited {p.returncode}: {(p.stderr or '')[-300:]}"}
+
+    return replay
